@@ -21,6 +21,7 @@ func init() {
 		Rules: []RuleDef{
 			{ID: "R14a", Floor: 2, Doc: "bounded payload reader for CARv2; reads only through br.r", Run: ruleR14a},
 			{ID: "R14b", Floor: 4, Doc: "advance invariant U(X)+X in Next and SkipNext; every success return passes the advance; initial offsets", Run: ruleR14b},
+			{ID: "R14d", Floor: 2, Doc: "no bare Read in Next/SkipNext (a Read may be short): bodies are consumed with ReadFull/CopyN/ReadNode; SkipNext returns freshly allocated metadata", Run: ruleR14d},
 			{ID: "R14c", Floor: 1, Doc: "SkipNext metadata from the pre-advance offset", Run: ruleR14c},
 		},
 	})
@@ -350,4 +351,40 @@ func ruleR14c(c *Ctx, r *Report) {
 		}
 	}
 	r.Check(bad == "", key, c.Pos(fn.Pos()), "Offset = O - v1offset, SourceOffset = O, Size = sectionSize - cidSize (O read before the advance)", bad)
+}
+
+func ruleR14d(c *Ctx, r *Report) {
+	for _, name := range []string{"Next", "SkipNext"} {
+		fn, err := c.Func(modV2, "BlockReader", name)
+		if err != nil {
+			r.InfraFail("%v", err)
+			continue
+		}
+		key := "no-bare-read@" + fnKey(fn)
+		bad := ""
+		eachInstr(fn, func(in ssa.Instruction) {
+			if ci, ok := in.(*ssa.Call); ok {
+				if f := calleeFunc(ci.Common()); f != nil && f.Name() == "Read" && (ci.Common().IsInvoke() || recvOrIface(ci)) {
+					bad = "a bare Read at " + c.Pos(in.Pos()) + " is used to consume section bytes: a reader may return fewer bytes than asked (pipes, sockets, HTTP bodies), the position bookkeeping then assumes the full length"
+				}
+			}
+		})
+		r.Check(bad == "", key, c.Pos(fn.Pos()), "no single Read call", bad)
+	}
+	fn, err := c.Func(modV2, "BlockReader", "SkipNext")
+	if err != nil {
+		r.InfraFail("%v", err)
+		return
+	}
+	key := "fresh-metadata@" + fnKey(fn)
+	bad := ""
+	for _, ret := range returnsOf(fn) {
+		if isNilConst(ret.Results[0]) {
+			continue
+		}
+		if al, ok := canon(ret.Results[0]).(*ssa.Alloc); !ok || !al.Heap {
+			bad = "SkipNext returns a pointer that is not a fresh allocation (e.g. into the reader's own state): metadata kept by the caller is overwritten by the next call"
+		}
+	}
+	r.Check(bad == "", key, c.Pos(fn.Pos()), "returns &BlockMetadata{...} allocated per call", bad)
 }
